@@ -36,6 +36,10 @@ CHECKS = {
    text="Theorem: whenever a typed configuration and selection compile, the resulting list has no duplicates and contains exactly the declaratively specified runs (selected experiments x executions x the execution's suites x benchmarks x effective cores x input sizes x variable values x tags, kept iff every filter group has a matching filter). The hand-written compilation model is tied to the real Configurator.get_runs() by generated typed configurations x selections compared as sets of full identity keys, and to an independent reference enumeration.",
    note="YAML loading and pykwalify outside the model (typed AST in). Python == identifications beyond bool~int (integral floats) outside the generated domain. Trusted: the harness's projection of RunId objects to identity keys.",
    technique="Rocq proof (in_flat_map / NoDup_nodup over the enumeration) + correspondence on generated configurations"),
+ "C18": dict(
+   text="Theorems over a Gallina model of the summary table for run sets of any size and any cell contents: up to four runs the rows are a permutation of one full row per run; beyond four, re-inserting the deleted columns from the list of uniform values gives back, as a multiset, exactly one full row per run and the complete header (lossless compaction); a column is deleted only if all its values are equal and the mean column never is; the mean cell is 'Failed' iff there is no sample, else a nearest integer with ties to even. The hand-written model is tied to TextReporter._generate_all_output by run sets of size 1-12 compiled by the real Configurator with every pattern of uniform/varying columns; the per-run numbers are tied to the data file through whole in-process sessions (current and earlier sessions, warm-up, failed runs) whose printed table is parsed back; Codespeed requests (incremental and final mode, single run, failed runs, runs completed earlier) are received by a local HTTP server and compared with the samples in the data file.",
+   note="The sample count and mean themselves come from the streaming statistics (C15) and the loader (C07); here they are compared with an independent reading of the data file. Codespeed has an oracle only (one result per run, values, -1 for failed runs); its record is a projection, not modelled further. humanfriendly's table printer is outside the model.",
+   technique="Rocq proof (permutation of insertion sort; column-wise induction for the compaction inverse; Z arithmetic for rounding) + differential correspondence + session and HTTP oracles"),
  "C19": dict(
    text="PARTIAL. Theorems over the typed configuration AST: compilation never yields an unhandled exception, and every complete configuration (all referenced experiments, machines, executors, suites defined, executions and suites named, profilers present) is accepted. Tied to the real Configurator by typed configurations with one completeness defect each (verdict and run set compared). For untyped YAML documents (wrong scalar types, unknown keys, dot-keys, anchors, nulls, non-mapping roots, empty) the claim rests on differential exploration through the real entry point.",
    note="PyYAML and pykwalify are third-party code outside the model; exploration only for untyped documents.",
